@@ -186,6 +186,7 @@ HISTORY.update({
 })
 HISTORY.update({
     "b6_C01_1": "caught as built (H4: the argument of exp in the private Mayer function, reported for the published law built from it)",
+    "b6_C02_1": "caught as built (P1: the calculation writes sqrt(eps)*sqrt(mu) out by hand instead of solving the published law)",
     "b6_C04_1": "caught as built (K7: 3 of 4 components reach the dimension assertion)",
     "b6_C05_1": "caught as built (S1: Add(a, a) loses a term when the per-argument results are gathered in a dict)",
     "b6_C06_1": "refused as built (exit 2: Derivative.variables); caught by S3 after the tree family got a derivative of symbolic order and the derivative node its `.variables` "
